@@ -103,10 +103,11 @@ PROPS["C19"] = {
 PYR = "TileBBoxPyramid whose 32 level boxes are all symbolic (each from the box generator); symbolic level l; symbolic tile p"
 PROPS["C15"]["harnesses"] += [
 	H("c15_h11_pyramid_intersect", CORE, "verif_kani::c15pyr", funcs=["TileBBoxPyramid::intersect", "TileBBox::intersect_bbox"], bounds=ALL_LEVELS, sample="two " + PYR),
-	H("c15_h11_pyramid_include", CORE, "verif_kani::c15pyr", funcs=["TileBBoxPyramid::include_bbox_pyramid", "TileBBoxPyramid::iter_levels", "TileBBox::include_bbox"], bounds=ALL_LEVELS, sample="two " + PYR),
-	H("c15_h11_pyramid_include_one", CORE, "verif_kani::c15pyr", funcs=["TileBBoxPyramid::include_bbox", "TileBBoxPyramid::include_coord"], bounds=ALL_LEVELS, sample=PYR + "; box; coordinate"),
-	H("c15_h11_pyramid_count", CORE, "verif_kani::c15pyr", funcs=["TileBBoxPyramid::count_tiles", "TileBBoxPyramid::is_empty"], bounds=ALL_LEVELS + "; level boxes at most 256x256", sample=PYR),
-	H("c15_h11_pyramid_queries", CORE, "verif_kani::c15pyr", funcs=["TileBBoxPyramid::contains_coord", "TileBBoxPyramid::overlaps_bbox", "TileBBoxPyramid::get_zoom_min", "TileBBoxPyramid::get_zoom_max", "TileBBoxPyramid::is_empty"], bounds=ALL_LEVELS, sample=PYR),
+	H("c15_h11_pyramid_include", CORE, "verif_kani::c15pyr", funcs=["TileBBoxPyramid::include_bbox_pyramid", "TileBBoxPyramid::iter_levels", "TileBBox::include_bbox"], bounds=ALL_LEVELS + "; the included pyramid is symbolic on levels 0, 7, 31 and empty elsewhere", sample=PYR + "; second pyramid with 3 symbolic levels", timeout=1200),
+	H("c15_h11_pyramid_include_one", CORE, "verif_kani::c15pyr", funcs=["TileBBoxPyramid::include_bbox", "TileBBoxPyramid::include_coord"], bounds=ALL_LEVELS, sample=PYR + "; box; coordinate", tier="thorough", timeout=1800),
+	H("c15_h11_pyramid_contains", CORE, "verif_kani::c15pyr", funcs=["TileBBoxPyramid::contains_coord", "TileBBoxPyramid::overlaps_bbox"], bounds=ALL_LEVELS + "; z any u8", sample=PYR + "; box"),
+	H("c15_h11_pyramid_zoom_min", CORE, "verif_kani::c15pyr", funcs=["TileBBoxPyramid::get_zoom_min", "TileBBoxPyramid::is_empty"], bounds=ALL_LEVELS, sample=PYR),
+	H("c15_h11_pyramid_zoom_max", CORE, "verif_kani::c15pyr", funcs=["TileBBoxPyramid::get_zoom_max"], bounds=ALL_LEVELS, sample=PYR),
 	H("c15_h11_pyramid_zoom_limits", CORE, "verif_kani::c15pyr", funcs=["TileBBoxPyramid::set_zoom_min", "TileBBoxPyramid::set_zoom_max"], bounds=ALL_LEVELS + "; zoom limits any u8", sample=PYR + "; zmin, zmax"),
 	H("c15_h11_pyramid_transform", CORE, "verif_kani::c15pyr", funcs=["<TileBBoxPyramid as TransformCoord>::flip_y", "<TileBBoxPyramid as TransformCoord>::swap_xy"], bounds=ALL_LEVELS, sample=PYR, stubs=["u32::pow(2,z) -> 1<<z"]),
 	H("c15_h11_pyramid_eq", CORE, "verif_kani::c15pyr", funcs=["<TileBBoxPyramid as PartialEq>::eq"], bounds=ALL_LEVELS, sample="two " + PYR),
@@ -270,3 +271,48 @@ PROPS["C19"]["harnesses"] += [
 	H("c19_layer_any_3", GEO, c11, funcs=["VectorTileLayer::read"], bounds="every 3-byte string", sample="[u8; 3]", stubs=[MON]),
 	H("c19_layer_any_5", GEO, c11, funcs=["VectorTileLayer::read", "VectorTileFeature::read"], bounds="every 5-byte string", sample="[u8; 5]", stubs=[MON], tier="thorough", timeout=2400),
 ]
+
+# ------------------------------------------------------------------------------------------ server harness crate: C07 / C05
+SRV = "verif_server"
+c07 = "tools::server::sources::static_source_folder::kani_harness"
+PATHM = "std::path model: Path::join / PathBuf::push / Path::starts_with replaced by byte-level reference implementations of their documented semantics; Path::is_dir nondeterministic; File::open = I/O boundary that resolves the path lexically, asserts it stays under the root and ends the execution; guess_mime constant"
+PROPS["C07"] = {
+	"harnesses": [
+		H("c07_model_sanity", SRV, c07, funcs=["(model) Path::join", "(model) Path::starts_with"], bounds="fixed paths", sample="-", stubs=[PATHM]),
+	] + [
+		H(f"c07_folder_{n}_c{c}", SRV, c07, funcs=["Folder::get_data", "Url::new", "Url::as_path"],
+			bounds=f"every request '/' + '{ch}' + {n - 1} bytes over the alphabet {{'/', '.', 'a', '%', '2', 'e', '\\\\'}}; root '/r'", sample=f"request path: first byte '{ch}' (concrete per instance), {n - 1} symbolic bytes", stubs=[PATHM], tier=t, timeout=to, expect_cover=False)
+		for n, t, to in [(2, "quick", None), (3, "quick", None), (4, "thorough", 1200), (5, "thorough", 2400), (6, "thorough", 3000)]
+		for c, ch in enumerate(["/", ".", "a", "%", "2", "e", "\\\\"])
+	],
+	"meta": {
+		"assumptions": [PATHM, "symlinks inside the root are outside the claim", "hyper hands the raw request path through (no percent-decoding): '%2e' is not '.'"],
+		"out": ["symlinks", "the tar root (exact-name map lookup, no path resolution)", "the HTTP layer / routing", "URL prefix stripping in StaticSource (string slicing only)"],
+	},
+}
+
+# ------------------------------------------------------------------------------------------ C05 kernels
+PROPS["C05"] = {
+	"harnesses": [
+		H(f"c05_h1_negotiation_{n}", CORE, "verif_kani::c05", funcs=["utils::optimize_compression", "TargetCompression::from_set", "TargetCompression::set_fast_compression", "TargetCompression::set_incompressible", "utils::compress", "utils::decompress"],
+			bounds=f"stored compression {n} x all 8 allowed sets x 3 goals (unrolled) x payload of 0..=2 symbolic bytes", sample="payload bytes", stubs=[CODEC], timeout=900)
+		for n in ["uncompressed", "gzip", "brotli"]
+	],
+	"meta": {
+		"assumptions": [CODEC],
+		"out": ["everything HTTP: routing, status line, header emission, Content-Type, connection handling", "Accept-Encoding header parsing (HeaderMap / str::contains)", "the real codecs"],
+	},
+}
+c05s = "tools::server::sources::tile_source::kani_harness"
+PROPS["C05"]["harnesses"] += [
+	H(f"c05_h3_tile_request_{n}", SRV, c05s, funcs=["TileSource::get_data", "Url::as_vec", "TileCoord3::new"],
+		bounds=f"every request '/' + {n} bytes over the alphabet {{'/', '0', '1', '7', '.', 'p'}}; source holds one tile at a symbolic coordinate", sample=f"request of {n} symbolic bytes; tile coordinate; payload byte", tier=t, timeout=to)
+	for n, t, to in [(1, "quick", 900), (2, "quick", 900), (5, "thorough", 2400), (6, "thorough", 3000)]
+]
+PROPS["C05"]["meta"]["assumptions"].append("TileSource harness: hand-rolled block_on; tokio Mutex uncontended; reader = harness TilesReaderTrait impl holding one tile")
+PROPS["C07"]["harnesses"] += [
+	H(f"c07_url_parent_segment_{n}", SRV, "tools::server::utils::url::kani_harness", funcs=["Url::has_parent_segment", "str::split", "(model) has_parent_segment_bytes"],
+		bounds=f"every '/' + {n} bytes over the alphabet: the real helper (str::split) equals the byte-level model the get_data harnesses use in its place", sample=f"url of {n} symbolic bytes", tier=t, timeout=to)
+	for n, t, to in [(2, "quick", None), (3, "quick", None), (4, "quick", 900), (5, "thorough", 2400), (6, "thorough", 3000)]
+]
+PROPS["C07"]["meta"]["assumptions"].append("Url::has_parent_segment is replaced by a byte-level model inside the get_data harnesses; model == real helper is decided separately (c07_url_parent_segment_*)")
